@@ -14,6 +14,7 @@ def run(facts, tier):
         ("pivot agreement", T.pivots, 2, "union result trimming: pivot index == theta index == retained count"),
         ("intersection emptiness", T.intersection_emptiness, 1, "the intersection becomes empty only on its own accumulated theta"),
         ("seed checks", T.seed_checks, 4, "seed hash mismatch throws before entries of an input are used"),
+        ("inferred emptiness", T.inferred_emptiness, 4, "a result may be flagged empty because it has no entries only when theta == MAX (truth table over source flag, no entries, estimation mode): an estimation-mode result without entries is not empty"),
         ("result claims", T.result_claims, 4, "on every structured path to the result of union / intersection / A-not-B: the ordered flag implies sorted entries (truth assignments consistent with the path), and the union result passes the trim to the nominal size after being filled"),
         ("ordered flag", T.ordered_flag_validity, 3, "operands that claim is_ordered_ really are sorted: the compacting constructors sort whenever they set the flag for an unordered source"),
         ("builder/reset", T.builder_reset, 2, "union reset re-reads theta after the table reset"),
